@@ -216,3 +216,53 @@ Proof. intros H. now apply nth_error_app1. Qed.
 
 Lemma nth_error_snoc {A} (l : list A) v : nth_error (l ++ [v])%list (List.length l) = Some v.
 Proof. rewrite nth_error_app2 by lia. now rewrite Nat.sub_diag. Qed.
+
+Lemma NoDup_app_disj {A} (a b : list A) x : NoDup (a ++ b)%list -> In x a -> In x b -> False.
+Proof.
+  induction a as [|y a IH]; simpl; [tauto|].
+  intros H [->|Hi] Hb; inversion H as [|? ? Hn Hd]; subst.
+  - apply Hn. apply in_or_app. now right.
+  - eauto.
+Qed.
+
+Lemma NoDup_app_r {A} (a b : list A) : NoDup (a ++ b)%list -> NoDup b.
+Proof. induction a as [|y a IH]; simpl; [auto|]. intros H. inversion H; auto. Qed.
+
+Lemma NoDup_app_l {A} (a b : list A) : NoDup (a ++ b)%list -> NoDup a.
+Proof.
+  induction a as [|y a IH]; simpl; [constructor|]. intros H. inversion H as [|? ? Hn Hd]; subst.
+  constructor; [|auto]. intros Hi. apply Hn. apply in_or_app. now left.
+Qed.
+
+(** monotonicity of a successful evaluation, for environments given as functions *)
+Lemma evalF_mono_fun (f g : string -> option float) e v :
+  (forall x w, f x = Some w -> g x = Some w) -> evalF f e = Ok v -> evalF g e = Ok v.
+Proof.
+  intros Hle. revert v. induction e; simpl; intros v H; try exact H.
+  - destruct (f s) eqn:E; [|discriminate]. now rewrite (Hle _ _ E).
+  - destruct (evalF f e); simpl in H; [|discriminate]. now rewrite (IHe _ eq_refl).
+  - eauto.
+  - destruct (evalF f e1); simpl in H; [|discriminate]. rewrite (IHe1 _ eq_refl). simpl.
+    destruct (evalF f e2); simpl in H; [|discriminate]. now rewrite (IHe2 _ eq_refl).
+  - destruct (evalF f e1); simpl in H; [|discriminate]. rewrite (IHe1 _ eq_refl). simpl.
+    destruct (evalF f e2); simpl in H; [|discriminate]. now rewrite (IHe2 _ eq_refl).
+  - destruct (evalF f e1); simpl in H; [|discriminate]. rewrite (IHe1 _ eq_refl). simpl.
+    destruct (evalF f e2); simpl in H; [|discriminate]. now rewrite (IHe2 _ eq_refl).
+  - destruct (evalF f e1); simpl in H; [|discriminate]. rewrite (IHe1 _ eq_refl). simpl.
+    destruct (evalF f e2); simpl in H; [|discriminate]. now rewrite (IHe2 _ eq_refl).
+  - destruct (evalF f e); simpl in H; [|discriminate]. now rewrite (IHe _ eq_refl).
+  - destruct (evalF f e1); simpl in H; [|discriminate]. rewrite (IHe1 _ eq_refl). simpl.
+    destruct (evalF f e2); simpl in H; [|discriminate]. now rewrite (IHe2 _ eq_refl).
+Qed.
+
+Lemma NoDup_app_snoc {A} (a : list A) x : NoDup a -> ~ In x a -> NoDup (a ++ [x])%list.
+Proof.
+  induction a as [|y a IH]; simpl; intros Hnd Hx.
+  - constructor; [tauto|constructor].
+  - inversion Hnd as [|? ? Hn Hd]; subst. constructor.
+    + intros Hi. apply in_app_or in Hi. destruct Hi as [Hi|[Hi|[]]]; [tauto|]. subst. tauto.
+    + apply IH; tauto.
+Qed.
+
+Lemma nth_error_snoc' {A} (l : list A) v k : List.length l = k -> nth_error (l ++ [v])%list k = Some v.
+Proof. intros <-. apply nth_error_snoc. Qed.
